@@ -22,6 +22,7 @@ PROPS = {
         "thorough": {"runs": [
             {"test": "^TestC01$", "shards": 16, "checks": 150000, "timeout": 3000, "group": 0},
             {"fuzz": "^FuzzC01$", "test": "FuzzC01", "fuzztime": "120s", "timeout": 400, "group": 1, "weight": 16},
+            {"fuzz": "^FuzzC01Decode$", "test": "FuzzC01Decode", "fuzztime": "120s", "timeout": 400, "group": 2, "weight": 16},
         ]},
     },
     "C04": {
